@@ -203,14 +203,11 @@ impl WdlParser {
             {
                 file.version = WdlVersion::Legion;
             }
-            // If we have WMO chunks, it's pre-Legion
+            // If we have WMO chunks, it's a pre-Legion version that has them. Vanilla has no
+            // WMO chunks (see `WdlVersion::has_wmo_chunks`), so a file without MAHO chunks is
+            // still WotLK: settling on Vanilla would drop the WMO data on the next write.
             else if mwmo_index.is_some() || mwid_index.is_some() || modf_index.is_some() {
-                // Check for MAHO to distinguish WotLK+ from Vanilla
-                if file.chunks.iter().any(|c| c.magic == MAHO_MAGIC) {
-                    file.version = WdlVersion::Wotlk;
-                } else {
-                    file.version = WdlVersion::Vanilla;
-                }
+                file.version = WdlVersion::Wotlk;
             }
             // Otherwise keep the parser's version
         }
